@@ -135,6 +135,7 @@ def _decorator_names(fn):
 
 class Program(object):
     def __init__(self, src=None, overrides=None):
+        self.renamed = []           # [(function, {current local name: reference name})] -- see nfcsa/alpha.py
         self.src = src or SRC
         self.overrides = overrides or {}    # module name -> source text (in-memory mutants)
         self.modules = {}
@@ -172,6 +173,9 @@ class Program(object):
                 if os.environ.get('NFCSA_NO_CANON') != '1':
                     from .canon import canonical
                     tree = canonical(tree)
+                    from . import alpha
+                    for unit, mapping in alpha.normalise(name, tree):
+                        self.renamed.append((name + '.' + unit, mapping))
                 m = Module(name, path, tree, source, is_pkg)
                 self.modules[name] = m
         for m in self.modules.values():
